@@ -75,7 +75,9 @@ class Collector:
         h = history_key(path, idx)
         cur = self.found.get(k)
         if cur is None or (len(h.split(";")), h) < (len(cur["history"].split(";")), cur["history"]):
-            self.found[k] = {"observer": observer, "history": h, "message": msg, "kind": kind}
+            self.found[k] = {"observer": observer, "history": h, "message": msg, "kind": kind,
+                             "names": getattr(self, "names", None),
+                             "path": tlc.to_jsonable([[a, g, st] for a, g, st in path[: idx + 1]])}
 
     def report(self, ctx):
         for (ob, act), d in sorted(self.found.items()):
@@ -83,6 +85,8 @@ class Collector:
 
 
 def replay_counterexample(ctx, conf, trace, prop, coll):
+    if coll is not None:
+        coll.names = {"reals": conf["reals"], "cplx": conf["cplx"]}
     rep = Replayer(conf["reals"], conf["cplx"])
     hits = []
 
@@ -209,6 +213,7 @@ def run(ctx):
         for u, v, lab in edge_list:
             by_src.setdefault(u, []).append((v, lab))
         rep = Replayer(conf["reals"], conf["cplx"])
+        coll.names = {"reals": conf["reals"], "cplx": conf["cplx"]}
         t0 = time.time()
         for u in order:
             if u not in by_src:
@@ -277,6 +282,7 @@ def run(ctx):
                      seed=ctx.seed % 100000, extra_files={"MCParams.tla": mod}, coverage=False)
         files = sorted(glob.glob(simdir + "/tr*"))
         rep = Replayer(conf["reals"], conf["cplx"])
+        coll.names = {"reals": conf["reals"], "cplx": conf["cplx"]}
         for fn in files:
             path = tlc.parse_sim_trace(fn)
             if len(path) < 2:
@@ -590,4 +596,24 @@ def bound_numeric(ctx, quick):
 
 
 def replay(ctx, path):
-    run(ctx)
+    """re-execute the stored behaviour of one reported violation on a real VarsManager"""
+    import json
+
+    with open(path) as f:
+        j = json.load(f)
+    d = j["detail"]
+    if "path" not in d or not d.get("names"):
+        return run(ctx)
+    steps = [tuple(x) for x in tlc.from_jsonable(d["path"])]
+    rep = Replayer(d["names"]["reals"], d["names"]["cplx"])
+    fails = []
+    run_path(rep, steps, lambda kind, ob, i, msg: fails.append((kind, ob, i, msg)))
+    ctx.count(len(steps), distinct_key=("replay", j["key"]))
+    ctx.count(1, distinct_key=("replay2", j["key"]))
+    ctx.cov["states"] = len(steps)
+    ctx.cov["transitions"] = len(steps) - 1
+    ctx.cov["traces_validated_against_impl"] = 1
+    ctx.sample({"replayed": d["history"], "failures": [list(map(str, x)) for x in fails]})
+    ctx.cov["rule"] = "replay of one stored behaviour"
+    for kind, ob, i, msg in fails:
+        ctx.violation(j["key"] if ob == d["observer"] else "%s:%s" % (ob, history_key(steps, i)), {"observer": ob, "message": msg, "history": history_key(steps, i)})
